@@ -2,6 +2,8 @@
 From DV Require Export Digest DigestLayouts Stored.
 Local Open Scope Z_scope.
 
+Definition sitem : Type := (N * row * bool * N * row * bool)%type.
+
 Inductive c06case :=
 (* one row of kind k, signed with the real sign()/build() and checked with the real verify();
    jobj: the harness' own serde_json says every present JSON text is an object *)
@@ -22,7 +24,12 @@ Inductive c06case :=
 (* a history of local mutations, deletions, synchronisations and peer rows on two real instances
    (ops: its operation codes, for the record); observation = how many rows of _node, _edge, the two
    deletion logs and the served peer rows the real verify() refuses *)
-| CStoredAll (ops : list N).
+| CStoredAll (ops : list N)
+(* a history of batches submitted to ONE long-lived SignatureVerificationService (verify_nodes,
+   verify_edges, the two deletion logs, verify_room_node).  An item is a row of kind k carrying the
+   signature that was honestly made for row r0 of kind k0 (the genuine row: r0 = r; a tampered copy: one
+   field changed, signature kept).  Observation: accepted / refused, batch by batch *)
+| CService (batches : list (list sitem)).
 
 Definition layout_of (k : N) : option layout := nth_error layouts (N.to_nat k).
 Definition zbytes (b : list byte) : list Z := map (fun x => Z.of_N (bn x)) b.
@@ -48,6 +55,24 @@ Definition dump_srow (x : srow) : list Z := [zn (s_id x); zn (s_key x); s_mdate 
 (* every stored row, and every row get_peer_node serves *)
 Definition served_rows (stores : list (list srow)) (keys : list N) : list srow :=
   concat stores ++ flat_map (fun st => flat_map (fun k => match served st k with Some x => [x] | None => [] end) keys) stores.
+
+(* the verification service: a row is accepted iff verify() accepts it — a function of the row and of
+   the signature it carries, not of what the service has seen before *)
+Definition item_verdict (Hf : list byte -> list byte) (it : sitem) : bool :=
+  let '(k, r, j, k0, r0, j0) := it in
+  match layout_of k, layout_of k0 with
+  | Some l, Some l0 => sign_accept l0 r0 j0 && accept l r j && bytes_eqb (Hf (enc l r)) (Hf (enc l0 r0))
+  | _, _ => false
+  end.
+Definition batch_verdict (Hf : list byte -> list byte) (b : list sitem) : bool := forallb (item_verdict Hf) b.
+Definition item_genuine (it : sitem) : bool := let '(k, r, _, k0, r0, _) := it in N.eqb k k0 && row_eqb r r0.
+(* same signed bytes, different rows: the collisions of classes 1 and 2 *)
+Definition item_collides (it : sitem) : bool :=
+  let '(k, r, _, k0, r0, _) := it in
+  match layout_of k, layout_of k0 with
+  | Some l, Some l0 => bytes_eqb (enc l r) (enc l0 r0) && negb (N.eqb k k0 && row_eqb r r0)
+  | _, _ => false
+  end.
 
 (* what the model says the implementation observes; Hf is the hash (blake3 for the runs) *)
 Definition run_C06_gen (Hf : list byte -> list byte) (c : c06case) : list Z :=
@@ -78,6 +103,7 @@ Definition run_C06_gen (Hf : list byte -> list byte) (c : c06case) : list Z :=
                           ++ map (fun k => zb (match served st k with Some _ => true | None => false end)) keys) stores
       ++ [Z.of_nat (length (filter (fun x => negb (verifies rows x)) (served_rows stores keys)))]
   | CStoredAll _ => [0]     (* every write path stores whole verified rows: nothing stored fails verify() *)
+  | CService batches => map (fun b => zb (batch_verdict Hf b)) batches   (* the verdict of a batch is a function of the batch *)
   end.
 Definition run_C06 : c06case -> list Z := run_C06_gen blake3.
 
@@ -102,6 +128,10 @@ Definition spec_C06 (c : c06case) (obs : list Z) : bool :=
   | CUtf8 _ => match obs with [_] => true | _ => false end
   (* every row that can be synchronised verifies exactly as stored / served *)
   | CPeerStore _ _ _ _ | CStoredAll _ => match rev obs with f :: _ => Z.eqb f 0 | [] => false end
+  (* whatever the service has seen before: an accepted batch holds genuine rows only *)
+  | CService batches =>
+      Nat.eqb (length obs) (length batches) &&
+      forallb (fun bo => if Z.eqb (snd bo) 1 then forallb item_genuine (fst bo) else true) (combine batches obs)
   end.
 
 (* known-finding classes (known_findings.d/C06.json):
@@ -130,6 +160,10 @@ Definition known_C06_gen (Hf : list byte -> list byte) (c : c06case) : list Z :=
       | Some l => if bytes_eqb (challenge_of Hf l r c) (Hf (enc l r)) then [3] else []
       | None => []
       end
+  | CService batches =>
+      if existsb (existsb item_collides) batches
+      then (if existsb (existsb (fun it => item_collides it && let '(k, _, _, k0, _, _) := it in N.eqb k k0)) batches then [1] else [2])
+      else []
   | _ => []
   end.
 Definition known_C06 : c06case -> list Z := known_C06_gen blake3.
@@ -143,6 +177,7 @@ Definition case_ok (c : c06case) : bool :=
   | COracle k _ _ _ => ok k
   | CUtf8 _ => true
   | CPeerStore _ _ _ _ | CStoredAll _ => true
+  | CService batches => forallb (forallb (fun it : sitem => let '(k, _, _, k0, _, _) := it in ok k && ok k0)) batches
   end.
 
 Definition eval_C06 (c : c06case) (obs : list Z) : list Z :=
